@@ -7,6 +7,8 @@
   definitions over `Float` are what the compiled driver runs against CPython, bit for bit.
 -/
 import PyTough.Proofs.ThermoIapws
+import PyTough.Proofs.ThermoSat
+import PyTough.Proofs.ThermoVisc
 
 namespace Props.C14
 open Model.Thermo Proofs.Thermo Proofs.Iapws Gen.Iapws
@@ -108,5 +110,80 @@ theorem region_equation_valid (t p : ℝ) :
   · intro h
     obtain ⟨_, b, _, d, _⟩ := (region_two t p).mp h
     exact supst_defined t p (by linarith) d
+
+/-! ### saturation pressure and saturation temperature
+
+  `satPoly β ϑ` is the implicit saturation equation of the formulation
+  (`β²ϑ² + n₁β²ϑ + n₂β² + n₃βϑ² + n₄βϑ + n₅β + n₆ϑ² + n₇ϑ + n₈` over the generated coefficients) in
+  `β = (p/p*)^¼`, `ϑ = T + n₉/(T − n₁₀)` (`thetaOf`). -/
+
+/-- `sat` solves the implicit equation: inside its range it returns `p* β⁴` where `β` (`satBeta`, the
+    root `2C / (−B + √(B² − 4AC))` the code takes) satisfies `satPoly β ϑ(T) = 0` — whenever the
+    discriminant is non-negative and the denominator non-zero (otherwise Python raises). -/
+theorem sat_root (t : ℝ) (h0 : 0 ≤ t) (h1 : t ≤ tcritical)
+    (hΔ : 0 ≤ satDisc (thetaOf (t + tc_k))) (hD : satDen (thetaOf (t + tc_k)) ≠ 0) :
+    sat t = Ret.num (pstar4 * (satBeta (thetaOf (t + tc_k)) * satBeta (thetaOf (t + tc_k)))
+      * (satBeta (thetaOf (t + tc_k)) * satBeta (thetaOf (t + tc_k)))) ∧
+    satPoly (satBeta (thetaOf (t + tc_k))) (thetaOf (t + tc_k)) = 0 :=
+  ⟨sat_eq t h0 h1, satPoly_satBeta _ hΔ hD⟩
+
+/-- `tsat` solves the same implicit equation: inside its range (`pmin` = the double nearest 611.213)
+    it returns `T − 273.15` where, with `β = (p/p*)^¼`, the `ϑ` it computes (`tsTheta`) satisfies
+    `satPoly β ϑ = 0`, and `T` satisfies `T² − (n₁₀ + ϑ) T + n₉ + n₁₀ ϑ = 0`, i.e. `ϑ = T + n₉/(T − n₁₀)`. -/
+theorem tsat_root (p : ℝ) (h0 : pmin ≤ p) (h1 : p ≤ pcritical)
+    (hΔ : 0 ≤ tsDisc (Real.sqrt (Real.sqrt (p / pstar4)) * Real.sqrt (Real.sqrt (p / pstar4))) (Real.sqrt (Real.sqrt (p / pstar4))))
+    (hD : tsDen (Real.sqrt (Real.sqrt (p / pstar4)) * Real.sqrt (Real.sqrt (p / pstar4))) (Real.sqrt (Real.sqrt (p / pstar4))) ≠ 0)
+    (h2 : 0 ≤ tsDisc2 (tsTheta (Real.sqrt (Real.sqrt (p / pstar4)) * Real.sqrt (Real.sqrt (p / pstar4))) (Real.sqrt (Real.sqrt (p / pstar4))))) :
+    let β := Real.sqrt (Real.sqrt (p / pstar4))
+    let ϑ := tsTheta (β * β) β
+    tsat p = Ret.num (tsT ϑ - tc_k) ∧ β * β * (β * β) = p / pstar4 ∧ satPoly β ϑ = 0 ∧
+      tsT ϑ * tsT ϑ - (nr4_9 + ϑ) * tsT ϑ + (nr4_8 + nr4_9 * ϑ) = 0 ∧
+      (tsT ϑ - nr4_9 ≠ 0 → ϑ = thetaOf (tsT ϑ)) := by
+  intro β ϑ
+  have hp0 : 0 ≤ p / pstar4 := by
+    have : (0 : ℝ) ≤ pmin := by unfold pmin; norm_num
+    exact div_nonneg (by linarith) (le_of_lt pstar4_pos)
+  have hb2 : β * β = Real.sqrt (p / pstar4) := Real.mul_self_sqrt (Real.sqrt_nonneg _)
+  refine ⟨?_, ?_, satPoly_tsTheta β hΔ hD, tsT_root ϑ h2, fun h => thetaOf_of_root _ _ h (tsT_root ϑ h2)⟩
+  · have := tsat_eq p h0 h1
+    rw [this]; show Ret.num (tsT (tsTheta (Real.sqrt (p / pstar4)) β) - tc_k) = Ret.num (tsT (tsTheta (β * β) β) - tc_k)
+    rw [hb2]
+  · rw [hb2]; exact Real.mul_self_sqrt hp0
+
+/-- **`tsat (sat t) = t` exactly (over the reals)** for every `t` of `sat`'s range `0 ≤ t ≤ tcritical`
+    at which `tsat`'s range test accepts the saturation pressure (hypothesis `hg`), on the branch of
+    the two quadratics that the routines take (`hΔ hD hβ hbr hne`: discriminant ≥ 0, denominator ≠ 0,
+    `β ≥ 0`, `2Eϑ + F ≥ 0`, `Eϑ + F ≠ 0`).  `_partial`: the branch conditions are numeric facts about
+    the coefficients on the interval (evaluated on every explored `t` by the harness, never violated);
+    `hg` is *false* within 1.2e-9 K of the critical temperature — see `sat_tsat_critical_end_witness`
+    and the known finding `sat-tsat-inverse:critical-end`. -/
+theorem sat_tsat_inverse_partial (t : ℝ) (h0 : 0 ≤ t) (h1 : t ≤ tcritical)
+    (hΔ : 0 ≤ satDisc (thetaOf (t + tc_k))) (hD : satDen (thetaOf (t + tc_k)) ≠ 0)
+    (hβ : 0 ≤ satBeta (thetaOf (t + tc_k)))
+    (hbr : 0 ≤ 2 * tsE (satBeta (thetaOf (t + tc_k)) * satBeta (thetaOf (t + tc_k))) (satBeta (thetaOf (t + tc_k))) * thetaOf (t + tc_k)
+      + tsF (satBeta (thetaOf (t + tc_k)) * satBeta (thetaOf (t + tc_k))) (satBeta (thetaOf (t + tc_k))))
+    (hne : tsE (satBeta (thetaOf (t + tc_k)) * satBeta (thetaOf (t + tc_k))) (satBeta (thetaOf (t + tc_k))) * thetaOf (t + tc_k)
+      + tsF (satBeta (thetaOf (t + tc_k)) * satBeta (thetaOf (t + tc_k))) (satBeta (thetaOf (t + tc_k))) ≠ 0)
+    (hg : pmin ≤ (sat t).toK ∧ (sat t).toK ≤ pcritical) :
+    tsat (sat t).toK = Ret.num t :=
+  sat_tsat_inverse t h0 h1 hΔ hD hβ hbr hne hg
+
+/-- outside `[611.213 Pa, pcritical]` `tsat` returns `None` — so the inverse fails wherever `sat t`
+    leaves that interval (which it does at the critical end: `sat(373.946) = 22064000.00032 > pcritical`,
+    exhibited bit for bit by the driver corpus, facet `critical_end_witness`) -/
+theorem tsat_outside_range (p : ℝ) (h : ¬(pmin ≤ p ∧ p ≤ pcritical)) : tsat p = Ret.none := tsat_none p h
+
+/-! ### viscosity is positive -/
+
+/-- for **every** density and every temperature `t ≥ 0` degC the viscosity routine returns a positive
+    number (`exp > 0`, `√τ > 0`, and the cubic `Σ h⁰ᵢ (T_c/T)ⁱ > 0` because `T_c/T ≤ 2.6`) -/
+theorem visc_pos (d t : ℝ) (ht0 : 0 ≤ t) : ∃ μ, visc d t = Ret.num μ ∧ 0 < μ := Proofs.Iapws.visc_pos d t ht0
+
+/-! ### the two forms of the region 2/3 boundary -/
+
+/-- over the full 350..590 degC boundary `b23t (b23p t)` exceeds `t` by at most 1e-9 K -/
+theorem b23_near_inverse (t : ℝ) (h0 : 350 ≤ t) (h1 : t ≤ 590) :
+    ∃ p t', b23p t = Ret.num p ∧ b23t p = Ret.num t' ∧ 0 ≤ t' - t ∧ t' - t ≤ 1 / 1000000000 :=
+  Proofs.Iapws.b23_near_inverse t h0 h1
 
 end Props.C14
